@@ -27,9 +27,9 @@ WORKERS = 8
 INVARIANTS = ['TypeOK', 'InvModeRules', 'InvNoLateReject', 'InvIdempotent', 'InvAliasKeeps',
               'InvLosesNothing', 'InvDictRoundTrip', 'InvSlotsKeep', 'InvSlotsFormat',
               'InvFuncSame', 'InvSeqSame', 'InvRemoteSame', 'InvSeqNormal', 'InvSeqRules',
-              'InvSeqAlias']
-KINDS = ('td', 'pd', 'slots', 'func', 'fseq', 'xfunc', 'tdseq')
-DEVS = ['DevWorkerClass', 'DevKwargsNone', 'DevRemembers', 'DevByRefMain']
+              'InvSeqAlias', 'InvCopiesAgree', 'InvCopiesNormal']
+KINDS = ('td', 'pd', 'slots', 'func', 'fseq', 'xfunc', 'tdseq', 'hand')
+DEVS = ['DevWorkerClass', 'DevKwargsNone', 'DevRemembers', 'DevByRefMain', 'DevRegistryEarly']
 MONITOR_CONSTANTS = '\n '.join('%s = FALSE' % d for d in DEVS)
 
 # steps of a sequence on one description object, by the way the object is touched;
@@ -131,10 +131,15 @@ def td_families(tier, rng):
         pats = [rng.choice(pats)]
     for pat in pats:
         bg = {n: other(n) for i, (d, n) in enumerate(ALIAS) if pat(i)}
+        vary = DEP_I + DEP_S
         if quick:
+            # eight of the ten by the seed, the other two set
+            vary = rng.sample(vary, 8)
+            bg.update({d: other(d, 1) for d in DEP_I + DEP_S if d not in vary})
             bg['extra'] = 1
-        fams.append(fam(ints=DEP_I + ([] if quick else ['extra']), ivals=(0, 1), strs=DEP_S,
-                        svals=('', 'a'), bg=bg))
+        fams.append(fam(ints=[d for d in vary if d in DEP_I] + ([] if quick else ['extra']),
+                        ivals=(0, 1), strs=[d for d in vary if d in DEP_S], svals=('', 'a'),
+                        bg=bg))
     # every (deprecated, replacement) pair in full, the other pairs unset / set
     for d, n in ALIAS:
         for setall in (False, True):
@@ -195,9 +200,24 @@ def slot_families(tier, rng):
 def seq_ops(tier, rng):
     if tier == 'quick':
         # the deprecated names and the mode switch always, the rest by the seed
-        return (['verify', 'submit', 'update_dep', 'inplace', 'item_mode', rng.choice(SEQ_OPS['attr'])]
+        return (['verify', 'submit', 'update_dep', 'inplace', 'item_mode',
+                 rng.choice(['attr_dep', 'attr_new'])]
                 + [rng.choice(SEQ_OPS['item'])])
     return [o for g in SEQ_OPS.values() for o in g]
+
+
+def hand_families(tier, rng):
+    '''descriptions handed to a raptor master: deprecated names set / unset
+       jointly (quick: four of them by the seed, the others set), loosely typed
+       values or not; the route fixes the mode'''
+    if tier == 'quick':
+        vary = rng.sample(DEP_I + DEP_S, 4)
+        bg   = {d: other(d, 1) for d in DEP_I + DEP_S if d not in vary}
+    else:
+        vary, bg = DEP_I + DEP_S, {}
+    return [fam(ints=[d for d in vary if d in DEP_I] + ['loose'], ivals=(0, 1),
+                strs=[d for d in vary if d in DEP_S], svals=('', 'a'), bg=bg),
+            fam(pres=PRES, ints=['cpu_processes', 'loose'], ivals=(0, 1))]
 
 
 def mc_files(tier, rng, kinds=KINDS, devs=(), emit=True,
@@ -210,20 +230,22 @@ def mc_files(tier, rng, kinds=KINDS, devs=(), emit=True,
            'MCFuncs == %s\nMCArgs == %s\nMCKws == %s\nMCApis == {"class", "decor"}\n'
            'MCShort == %s\nMCSeqLens == %s\n'
            'MCXFuncs == %s\nMCXWheres == {"main", "module"}\nMCXArgs == %s\n'
-           'MCSeqBases == %s\nMCSeqOps == %s\nMCOpLens == {2, 3}\n====\n'
+           'MCSeqBases == %s\nMCSeqOps == %s\nMCOpLens == {2, 3}\nMCHandFams == {%s}\n====\n'
            % (',\n  '.join(tla(f) for f in tdf), ',\n  '.join(tla(f) for f in slf),
               tla(set(funcs)), tla(set(R.ARGS)), tla(set(R.KWS)), tla(set(R.SHORT)),
               tla({2, 3} if tier == 'quick' else {2, 3, 4}),
               tla(set(R.XFUNCS)), tla(set(R.XARGS)),
               tla(S(SEQ_BASES[:1] if tier == 'quick' else SEQ_BASES)),
-              tla(set(seq_ops(tier, rng)))))
+              tla(set(seq_ops(tier, rng))),
+              ',\n  '.join(tla(f) for f in hand_families(tier, rng))))
     cfg = 'CONSTANTS\n'
     for d in DEVS:
         cfg += ' %s = %s\n' % (d, 'TRUE' if d in devs else 'FALSE')
     cfg += (' Kinds = %s\n TDFams <- MCTDFams\n SlotFams <- MCSlotFams\n Funcs <- MCFuncs\n'
             ' ArgIds <- MCArgs\n KwIds <- MCKws\n Apis <- MCApis\n ShortFuncs <- MCShort\n'
             ' SeqLens <- MCSeqLens\n XFuncs <- MCXFuncs\n XWheres <- MCXWheres\n XArgIds <- MCXArgs\n'
-            ' SeqBases <- MCSeqBases\n SeqOpIds <- MCSeqOps\n OpLens <- MCOpLens\n Emit = %s\n'
+            ' SeqBases <- MCSeqBases\n SeqOpIds <- MCSeqOps\n OpLens <- MCOpLens\n'
+            ' HandFams <- MCHandFams\n Emit = %s\n'
             % (tla(set(kinds)), tla(bool(emit))))
     cfg += 'SPECIFICATION Spec\nCHECK_DEADLOCK FALSE\n'
     for i in INVARIANTS:
@@ -276,6 +298,12 @@ def validate(traces):
 def classify(kind, inp, clause, infos):
     '''input class of a failing trace (for known-findings matching)'''
     c = clause.split('.', 1)[1]
+    if kind == 'hand':
+        where = {'workers': 'Master.submit_workers', 'tasks_exec': 'Master.submit_tasks '
+                 '(executable task)', 'tasks_raptor': 'Master.submit_tasks (raptor task)'}
+        cps = sorted(i.split('.', 2)[2] for i in infos if i.startswith('I.copy.'))
+        return ['%s: %s copy of the description' % (where[inp['route']], w) for w in cps] \
+               or ['%s' % where[inp['route']]]
     if kind == 'tdseq':
         # the calls of the sequence which failed: (change before the call, verified before?)
         ctx  = sorted(tuple(i.split('.')[3:]) for i in infos if i.startswith('I.seq.after.'))
@@ -332,6 +360,14 @@ def required_classes():
     req |= {'K.slots.%s.%s.new' % (r, f) for r in 'cg' for f in ('int', 'dict', 'ro')}
     req |= {'K.slots.mixed.oldfirst', 'K.slots.mixed.newfirst', 'K.slots.mixed.len.2',
             'K.slots.mixed.len.3', 'K.slots.len.3'}
+    req |= {'K.hand.%s.%s' % (r, x) for r in ('workers', 'tasks_exec', 'tasks_raptor')
+            for x in ('accept', 'reject')} \
+           - {'K.hand.workers.reject', 'K.hand.tasks_exec.reject'}   # the route fills these in
+    req |= {'K.hand.alias.' + d for d, n in ALIAS}
+    req |= {'K.hand.loose.' + r for r in ('workers', 'tasks_exec', 'tasks_raptor')}
+    req |= {'K.hand.copy.workers.' + w for w in ('verified', 'registry', 'insert', 'sent')}
+    req |= {'K.hand.copy.tasks_exec.' + w for w in ('verified', 'insert', 'sent')}
+    req |= {'K.hand.copy.tasks_raptor.' + w for w in ('verified', 'sent', 'queued')}
     req |= {'K.xfunc.%s.%s' % (f, w) for f in R.XFUNCS for w in ('main', 'module')}
     req |= {'K.xfunc.at.local', 'K.xfunc.at.remote'} | {'K.xfunc.a.' + a for a in R.XARGS}
     req |= {'K.tdseq.set.' + h for h in ('attr', 'item', 'update', 'inplace')}
@@ -409,13 +445,15 @@ def run(chk, tier, seed):
         for dev, kinds, inv in [('DevWorkerClass', ('td',), 'InvAliasKeeps'),
                                 ('DevKwargsNone', ('func',), 'InvFuncSame'),
                                 ('DevRemembers', ('tdseq',), None),
-                                ('DevByRefMain', ('xfunc',), 'InvRemoteSame')]:
+                                ('DevByRefMain', ('xfunc',), 'InvRemoteSame'),
+                                ('DevRegistryEarly', ('hand',), None)]:
             r = tlc.run('Descr', 'MC', 'MC.cfg', workers=WORKERS, timeout=600,
                         extra_files=mc_files('quick', random.Random(1), kinds=kinds,
                                              devs=[dev], emit=False))
             chk.add_tlc(r, 'deviation:' + dev)
             if r.ok or (inv and r.violated != inv) or \
-                    (not inv and r.violated not in ('InvSeqNormal', 'InvSeqRules', 'InvSeqAlias')):
+                    (not inv and r.violated not in ('InvSeqNormal', 'InvSeqRules', 'InvSeqAlias',
+                                                    'InvCopiesAgree', 'InvCopiesNormal')):
                 raise Machinery('deviation %s not detected by the model (got %s)'
                                 % (dev, r.violated))
             chk.notes.append('deviation %s breaks %s in the design model' % (dev, r.violated))
@@ -451,6 +489,10 @@ def run(chk, tier, seed):
         'payloads for another interpreter: encoded by a python process whose __main__ is the '
         'rig module, decoded by a fresh interpreter which can import the rig module but has '
         'another __main__ (the raptor worker situation)',
+        'hand-over points: raptor Master.submit_workers and Master.submit_tasks (description '
+        'objects; executable and raptor tasks) on a master built with __new__, registry / '
+        'publish / advance / request queue recorded; Master._run_task (blocks on the result) '
+        'is not driven',
         'sequences on one description object: lengths 2-3 plus a final verify / submit, steps '
         'from a fixed catalogue of changes (DescrOps.SeqOps)',
         'old slot format on input = cores / gpus as integers, dictionaries, RO objects or '
